@@ -537,6 +537,26 @@ theorem counter_allOf :
      | .ok r => r.hasType (annot allOfBad) == false
      | _ => false) = true := by decide +kernel
 
+/-- finding C19-pattern-overlap-default.  `C19_property_sound` speaks of the property's own element being called; when a
+    `patternProperties` pattern of the owning class also matches the property's JSON name, the class calls the composite
+    `AllOf(element, *patterns)` instead, which carries no default: the attribute of a defaulted (hence "always present")
+    property is then the not-passed marker.  The same class without the pattern fills the default. -/
+def envA : Env := { re := fun p s => p == "^a" && s.startsWith "a", fmt := fun _ => none }
+def holderPat : Elem := .mk (.object "Holder") { hasProps := true, hasPatProps := true } [] none none
+  [({ name := "a", source := some "a" }, Elem.leaf .integer { default := some (.num (.int 3)) })]
+  [({ name := "^a" }, Elem.trivial)] none none [] []
+def holderPlain : Elem := .mk (.object "Holder") { hasProps := true } [] none none
+  [({ name := "a", source := some "a" }, Elem.leaf .integer { default := some (.num (.int 3)) })] [] none none [] []
+
+theorem counter_pattern_overlap_default :
+    (match holderPat.call envA (.val (.obj [])) with
+     | .ok (.inst _ [("a", .notPassed)]) => true
+     | _ => false) = true ∧
+    (match holderPlain.call envA (.val (.obj [])) with
+     | .ok (.inst _ [("a", .num (.int 3))]) => true
+     | _ => false) = true := by
+  refine ⟨by decide +kernel, by decide +kernel⟩
+
 /-- non-vacuity: a tree with tuple items, a union and a class satisfies `Hyp` and is called successfully -/
 def good : Elem := .mk .array { itemsKind := .tuple, addItemsB := false } [Elem.leaf .string, qCls] none none [] [] none none [] []
 example : (annot good).show = "List[Union[str, Q]]" := by decide +kernel
